@@ -285,8 +285,8 @@ def document(input_file: str, settings: Settings):
 
                 if prefix is not None:
                     # If current file dir is same as root dir, replace "." with
-                    # prefix
-                    if index.title == settings.rst.module_path_separator:
+                    # prefix (whatever the module path separator is)
+                    if rel_path == os.curdir:
                         index.title = prefix
                     else:
                         # Add prefix to beginning of header
